@@ -540,6 +540,14 @@ impl Sim {
         true
     }
 
+    /// Forgets everything about a finished operation (used by untraced warm-up operations).
+    pub fn forget_op(&mut self, k: usize) {
+        self.ops.remove(&k);
+        self.op_results.remove(&k);
+        self.wire.op_id.remove(&k);
+        self.wire.op_sid.remove(&k);
+    }
+
     pub fn op_live(&self, k: usize) -> bool {
         self.ops.get(&k).map(|o| o.fut.is_some()).unwrap_or(false)
     }
